@@ -677,8 +677,26 @@ class BuiltinsMixin(object):
         return PList([(i + start, v) for i, v in enumerate(self.iterate(it))])
 
     def bi_zip(self, *its):
-        seqs = [self.iterate(i) for i in its]
-        return PList([tuple(t) for t in zip(*seqs)])
+        from .core import LazySeq
+
+        # element-wise pulling, so that the idiom zip(*[iter(x)] * 2) (one shared iterator) pairs consecutive items
+        sources = []
+        for it in its:
+            if isinstance(it, LazySeq):
+                sources.append(it)
+            else:
+                sources.append(LazySeq(self.iterate(it)))
+        out = []
+        while True:
+            row = []
+            for src in sources:
+                if src.pos >= len(src.vals):
+                    return PList(out)
+                row.append(src.vals[src.pos])
+                src.pos += 1
+            if not sources:
+                return PList(out)
+            out.append(tuple(row))
 
     def bi_map(self, f, *its):
         seqs = [self.iterate(i) for i in its]
